@@ -6,6 +6,11 @@ use std::time::{Duration, SystemTime};
 ///
 /// The `Ok` variant corresponds to a positive duration, and the `Err` variant to a negative duration.
 fn current_duration_since_epoch() -> Result<Duration, Duration> {
+    #[cfg(tz_rs_verif)]
+    if let Some(clock) = crate::verif_hooks::clock() {
+        return clock();
+    }
+
     SystemTime::now().duration_since(SystemTime::UNIX_EPOCH).map_err(|e| e.duration())
 }
 
